@@ -40,9 +40,10 @@ ALPHABET = [
     ('g_A_B', ['A', 'B'], [(V('A'), False), (V('B'), False)]),
     ('g_seqT_T', ['T'], [(nat('Sequence', V('T')), False), (V('T'), False)]),
     ('g_T_oint', ['T'], [(V('T'), False), ('int', True)]),
+    ('g_int_oseqT', ['T'], [('int', False), (nat('Sequence', V('T')), True)]),
 ]
 ALPHA = {a[0]: a for a in ALPHABET}
-DEFAULTS = {'int': '7', 'str': '"d"'}
+DEFAULTS = {'int': '7', 'str': '"d"', nat('Sequence', V('T')): '[]'}
 CALLS = [(), ('int',), ('str',), ('float',), ('int', 'int'), ('int', 'str'), ('str', 'str'), (SEQI,), (nat('Sequence', 'unk'),), (nat('Optional', 'unk'),),
          (nat('Optional', 'int'),), ('unk',), (SEQI, 'int'), (nat('Sequence', 'unk'), 'int'), ('int', 'int', 'int'), (nat('Sequence', 'str'), 'int')]
 
@@ -234,6 +235,13 @@ def extra_programs(tier):
                     gid, ''.join(decl(name, ALPHA[k]) for k in by[1]), gid, ''.join(decl(name, ALPHA[k]) for k in by[2]), joined(ok_all), gid, joined(ok_01), gid, gid)
             exp = ','.join(['J:'] + [resolve(all_c, c) for c in ok_all]) + '|' + ','.join(['J:'] + [resolve(l01, c) for c in ok_01])
             yield gid, '%s|levels=%s' % ('+'.join(s), ''.join(map(str, lv))), [], [('all-resolvable-calls', text, 'c%d' % gid, exp)]
+            # the same three levels inside a function: every scope is small, so cell indices of different levels coincide
+            gid += 1
+            name = 'ov%d' % gid
+            text = 'fn w%d()->str{ %sfn h%d()->str{ %sfn k%d()->str{ %s%s } k%d() + "|" + %s } h%d() } let c%d = w%d();' % (
+                gid, ''.join(decl(name, ALPHA[k]) for k in by[0]), gid, ''.join(decl(name, ALPHA[k]) for k in by[1]), gid, ''.join(decl(name, ALPHA[k]) for k in by[2]),
+                joined(ok_all), gid, joined(ok_01), gid, gid, gid)
+            yield gid, '%s|levels-in-function=%s' % ('+'.join(s), ''.join(map(str, lv))), [], [('all-resolvable-calls', text, 'c%d' % gid, exp)]
     # generic host: the caller's type parameter is an argument type
     HOST = ('cmp', 'HostT', ())
     top_pool = ['g_T', 'g_T_T', 'n_int', 'n_str', 'g_seqT', 'g_A_B', 'g_T_int']
